@@ -9,6 +9,7 @@ PAYLOAD = ['"', "'", '<', '>', '&', '&quot;', '&#34;', '&#x22;', '&amp;', '&lt;'
            'onerror=', 'onmouseover=', 'alert(1)', 'javascript:', '%22', '%3C', '%', 'x', 'a', '/', ':', '@', '=', '(', ')',
            '[', ']', '\\[', '\\]', '`', '*', '_', '<b>', '</a>', '<script>', '-->', '&#', ';', '#', '?', 'é', '\\', ' ',
            # what a template engine or str.format would react to
+           'data:image/png;base64,', 'data:text/html,', 'javascript:', 'vbscript:', 'file:///',
            '{', '}', '{}', '{0}', '{inner}', '{target}', '{title}', '%s', '%(a)s', '$x', '${x}', '{{', '}}']
 
 
